@@ -52,6 +52,56 @@ def run(repo: Repo, chk: Check) -> None:
     pass_structure(repo, chk)
     state_erasure(repo, chk)
     rocc(repo, chk)
+    registry_binding(repo, chk)
+
+
+# --------------------------------------------------------------------------- the accelerator registered under a name is the one built for it
+def registry_binding(repo: Repo, chk: Check) -> None:
+    chk.rule(
+        "C04.registry-binding",
+        "a factory handed to AccContext.register_accelerator inside a loop does not capture a per-iteration variable by reference (closures bind "
+        "late: every registered name would return the accelerator of the LAST iteration, and its ops would be lowered with a foreign register "
+        "map); the value is bound when the factory is created (default argument, functools.partial, a class / function object)",
+        floor=1,
+    )
+    n = 0
+    funcs = list(repo.all_funcs()) + [m for c in repo.all_classes() for m in c.methods.values()]
+    for f in funcs:
+        regs = [c for c in ast.walk(f.node) if isinstance(c, ast.Call) and callee_name(c) == "register_accelerator" and len(c.args) >= 2]
+        if not regs:
+            continue
+        chk.analysed(f.key)
+        parents: dict[int, ast.AST] = {}
+        for nd in ast.walk(f.node):
+            for ch in ast.iter_child_nodes(nd):
+                parents[id(ch)] = nd
+        for c in regs:
+            loops = []
+            cur = parents.get(id(c))
+            while cur is not None:
+                if isinstance(cur, (ast.For, ast.While)):
+                    loops.append(cur)
+                cur = parents.get(id(cur))
+            fac = c.args[1]
+            n += 1
+            key = f"{f.key}:register@{c.lineno}"
+            if not isinstance(fac, ast.Lambda) or not loops:
+                chk.ok("C04.registry-binding", key, f"{f.module.relpath}:{c.lineno}", "the factory is not a closure created in a loop", nontrivial=bool(loops))
+                continue
+            own = {a.arg for a in (*fac.args.posonlyargs, *fac.args.args, *fac.args.kwonlyargs)}
+            free = {x.id for x in ast.walk(fac.body) if isinstance(x, ast.Name) and isinstance(x.ctx, ast.Load)} - own
+            per_iter: set[str] = set()
+            for l in loops:
+                for x in ast.walk(l):
+                    if isinstance(x, ast.Name) and isinstance(x.ctx, ast.Store):
+                        per_iter.add(x.id)
+            late = sorted(free & per_iter)
+            chk.result(not late, "C04.registry-binding", key, f"{f.module.relpath}:{c.lineno}",
+                       "the per-iteration value is bound when the factory is created",
+                       f"the factory `{ast.unparse(fac)[:60]}` reads {late} when it is CALLED, i.e. after the loop has finished: every accelerator name registered "
+                       "in this loop resolves to the accelerator of the last iteration")
+    if n == 0:
+        raise AnalysisError("no call of register_accelerator found in the analysed tree")
 
 
 # --------------------------------------------------------------------------- register maps
